@@ -29,6 +29,10 @@ func runConcurrent(c *core.Ctx) {
 			continue
 		}
 		rng := c.Rand("conc", i)
+		if i%5 == 4 {
+			mixedDelimiter(c, id, i)
+			continue
+		}
 		text := i%3 == 2
 		mode := mon.Mode((i / 3) % 2)
 		W := 2 + rng.Intn(3)
@@ -107,6 +111,60 @@ func runConcurrent(c *core.Ctx) {
 			}
 			c.Violation(key, id, fmt.Sprintf("%d goroutines writing through one codec instance (%s channel): %s", W, mode, bad), map[string]interface{}{"writers": W, "text": text})
 		}
+	}
+}
+
+// mixedDelimiter: the README pipeline (delimiter frames + text codec) with two kinds of writers on one channel: strings
+// (the delimiter encoder hands them on as a stream: body and delimiter are separate low-level writes) and byte slices
+// (one vectored write each). Every string written is received as the identical string, whatever the other writers send.
+func mixedDelimiter(c *core.Ctx, id string, i int) {
+	rng := c.Rand("conc-mixed", i)
+	mode := mon.Mode(i % 2)
+	W := 2 + rng.Intn(3)
+	per := 4 + rng.Intn(8)
+	msgs := make([][]netty.Message, W)
+	want := map[string]int{}
+	for w := range msgs {
+		for s := 0; s < per; s++ {
+			str := fmt.Sprintf("w%d-s%d-%s", w, s, string(bytes.Repeat([]byte{byte('a' + w)}, 10+rng.Intn(300))))
+			if w%2 == 0 {
+				msgs[w] = append(msgs[w], str)
+			} else {
+				msgs[w] = append(msgs[w], []byte(str))
+			}
+			want[str]++
+		}
+	}
+	res := concodec.Run(mode, 8, []netty.Handler{frame.DelimiterCodec(1<<20, "\r\n", true), format.TextCodec()}, msgs)
+	c.Count("concurrent_writer_trials", 1)
+	c.Count("concurrent_mixed_delimiter_trials", 1)
+	if res.Stalled {
+		c.Count("concurrent_writer_trials_with_pileup", 1)
+		c.Sig("conc-mixed", mode, W)
+	}
+	if !res.Done {
+		c.Inconclusive(id, "watchdog: concurrent writers stuck")
+		return
+	}
+	got := map[string]int{}
+	for _, line := range bytes.Split(bytes.TrimSuffix(res.Wire, []byte("\r\n")), []byte("\r\n")) {
+		got[string(line)]++
+		c.Count("concurrent_frames_checked", 1)
+	}
+	bad := ""
+	for k, n := range want {
+		if got[k] != n {
+			bad = fmt.Sprintf("string %.60q was written %d time(s) but is on the wire %d time(s)", k, n, got[k])
+			break
+		}
+	}
+	for k, n := range got {
+		if want[k] != n && bad == "" {
+			bad = fmt.Sprintf("frame %.60q is on the wire %d time(s) but was written %d time(s)", k, n, want[k])
+		}
+	}
+	if bad != "" {
+		c.Violation("C16:text-roundtrip-mismatch:concurrent-writers", id, fmt.Sprintf("%d goroutines (string and []byte messages) through DelimiterCodec + TextCodec on one %s channel: %s", W, mode, bad), map[string]interface{}{"writers": W})
 	}
 }
 
